@@ -105,6 +105,7 @@ type DecArshalPlan struct {
 	Read       core.ReadPlan `json:"read"`
 	PreWarm    int           `json:"prewarm"` // earlier pooled calls (history for C03/C18 flavours)
 	FromFunc   bool          `json:"unmarshal_from_func_for_any"`
+	RejectFunc bool          `json:"functions_that_fail_before_reading,omitempty"` // with FromFunc: functions for *float64/*string/*bool that return an error without touching the decoder
 	TypedType  string        `json:"typed_target,omitempty"` // a reflect-built random type; the input is Marshal of a random value of it
 
 	typ      reflect.Type
@@ -118,6 +119,8 @@ type DecArshalPlan struct {
 type DecArshal struct {
 	Mode string // c05, c03
 }
+
+var errRejectedByUser = errors.New("rejected by user code")
 
 func (sc *DecArshal) plan(t *core.Tape, env *Env) *DecArshalPlan {
 	p := &DecArshalPlan{}
@@ -139,6 +142,7 @@ func (sc *DecArshal) plan(t *core.Tape, env *Env) *DecArshalPlan {
 	p.TargetName = decTargets[p.Target].Name
 	p.Legacy = sc.Mode != "c03" && ps.Chance(1, 5)
 	p.FromFunc = sc.Mode != "c03" && ps.Chance(1, 6)
+	p.RejectFunc = p.FromFunc && ps.Chance(1, 3)
 	is := t.S("input")
 	mutP := 2
 	if sc.Mode == "c03" {
@@ -293,7 +297,18 @@ func (sc *DecArshal) Run(t *core.Tape, env *Env) (any, []core.Violation) {
 	if p.Legacy {
 		opts = append([]json.Options{jsonv1.DefaultOptionsV1()}, opts...)
 	}
-	if p.FromFunc {
+	if p.FromFunc && p.RejectFunc {
+		// user code that rejects a value before reading anything: the position
+		// the library synthesises for the error (start of the value that comes
+		// next) must not depend on how much of the delimiters and whitespace in
+		// front of that value happens to be buffered
+		opts = append(opts, json.WithUnmarshalers(json.JoinUnmarshalers(
+			json.UnmarshalFromFunc(func(d *jsontext.Decoder, v *float64) error { return errRejectedByUser }),
+			json.UnmarshalFromFunc(func(d *jsontext.Decoder, v *string) error { return errRejectedByUser }),
+			json.UnmarshalFromFunc(func(d *jsontext.Decoder, v *bool) error { return errRejectedByUser }),
+			json.UnmarshalFromFunc(func(d *jsontext.Decoder, v *tInner) error { return errRejectedByUser }),
+		)))
+	} else if p.FromFunc {
 		// a function that handles every value itself (the route that asks the
 		// decoder whether the stream has ended before calling user code)
 		opts = append(opts, json.WithUnmarshalers(json.UnmarshalFromFunc(func(d *jsontext.Decoder, v *any) error {
